@@ -1,8 +1,20 @@
+import importlib.util, os
+_spec = importlib.util.spec_from_file_location("c18", os.path.join(os.path.dirname(os.path.abspath(__file__)), "c18.py"))
+_c18 = importlib.util.module_from_spec(_spec)
+_spec.loader.exec_module(_c18)
+def _c18_entry(short, tiers=None):
+    e = dict([x for x in _c18.CHECK["entries"] if x["fn"].endswith("." + short)][0])
+    e["opts"] = dict(_c18.CHECK["opts"], **e.get("opts", {}))
+    if tiers:
+        e["tiers"] = tiers
+    return e
 P = "github.com/tochemey/goakt/v4/internal/address."
 CHECK = {
     "id": "C26",
-    "packages": ["./internal/address"],
-    "harness": ["internal/address/zz_verif_c26.go"],
+    "packages": ["./internal/address", "./actor"],
+    "harness": ["internal/address/zz_verif_c26.go", "actor/zz_verif_c18.go"],
+    "replace": _c18.CHECK["replace"],
+    "stop": _c18.CHECK["stop"],
     "entries": [
         {"fn": P + "vC26_roundtrip", "cover_optional": ("with-parent", "no-parent"),
          "cases_quick": {"sysLen": [1, 2], "nameLen": [2], "parentLen": [0, 2], "hostLen": [1, 3], "portDigits": [1, 5]},
@@ -11,9 +23,13 @@ CHECK = {
          "cases_quick": {"sysLen": [1], "nameLen": [2], "parentLen": [0, 1], "hostLen": [3, 4], "portDigits": [2, 5]},
          "cases_thorough": {"sysLen": [1, 2], "nameLen": [1, 2], "parentLen": [0, 1, 2], "hostLen": [2, 3, 4, 5], "portDigits": [1, 2, 3, 4, 5]}},
         {"fn": P + "vC26_parse_any", "cover_optional": ("parsed",)},
+        # the receiving side (actor/remote_server.go deliverRemoteTellMessage): the receiver is looked up by the address parsed from the
+        # wire string and the sender PID is rebuilt from it: the C18 scenario (unknown / stopped / running receiver, with and without sender)
+        _c18_entry("vC18_remote"),
     ],
     "opts": {"unwind": 16, "itoa_digits": 5},
     "explanation": "Address.buildString/String/HostPort/Equals, Parse, HostPortOf and strconvx.ParseInt32 (strconv.ParseInt from its real SSA) executed symbolically on symbolic-length strings; the validity predicate is a transcription of Validate's regexp and of the hostname / IPv6-literal character classes; Parse is also run on an arbitrary 14-byte string with every implicit panic an obligation.",
     "bounds": {"case split": "string lengths and port digit count are enumerated concretely per job (contents symbolic)", "system,name,parent": "1..2 (quick) / 1..3 (thorough) bytes", "host": "hostname/IPv4 class 1..4 bytes; IPv6 class (>= 2 colons) 2..5 bytes", "port": "0..65535", "arbitrary input": "<= 14 bytes"},
     "assumptions": ["strings.Index/Cut/Contains/HasPrefix, strings.Builder, strconv.AppendInt are library models (validated by selftest)", "regexp/net resolver of Validate are not executed; validity predicate transcribed in the harness"],
 }
+CHECK["explanation"] += " Receiving side: actorSystem.deliverRemoteTellMessage (address.Parse of the wire receiver/sender, tree lookup, newRemoteSenderPID, dead-lettering) is executed through the C18 scenario vC18_remote (concrete canonical wire strings; receiver unknown / stopped / running)."
